@@ -10,6 +10,16 @@ BASE_NOTE = ("Trusted base: CPython's ast module; the evaluator/normaliser in fs
 
 # id -> (technique, level text, design ref) for the properties whose check is built and armed
 CLAIMS = {
+    "C02": ("placement/alignment and guard analysis on evaluator terms, formula identity of the tangent, covariance kind of the orientation step",
+            "Static necessary-condition analysis of the assembled system: unknown/equation layout, row-pair offsets and index advance under one guard, "
+            "keep-test on occupied columns, coefficient pair written in the column found for the same interface, tangent = J*(v-c) with the centre "
+            "fitted over all points by the configured method, unit normalisation, orientation reference, two-point interfaces kept away from the "
+            "circle fit. Per coefficient for every junction of every tissue; accuracy of the fitted centre is not decided. One known finding (F6).", "3/C02"),
+    "C13": ("formula identity by algebraic value numbering with handler-path specialisation, row-placement alignment, guard domination, unit typing",
+            "Static necessary-condition analysis: calculate_velocity equals (p1-p0)/(time[t1]-time[t0]) with the same neighbour frame for position and "
+            "time, the missing-partner handler yields exactly zero, each junction's components land in its own two rows, every rhs store is dominated "
+            "by the dynamic-mode condition, the adimensional divisor is the mean speed of exactly the written vectors and is what is reported. "
+            "Correctness of the tracked partner is C12's geometric part and not decided.", "3/C13"),
     "C08": ("sibling-predicate canonicalisation (boolean normal forms with integer thresholds, membership normal form) + guard domination, over the ast",
             "Static necessary-condition analysis: the four hand-written copies of the internal/external predicate are reduced to canonical "
             "formulas over |cells(v)|>=2 / |cells(end)|>=3 and each must equal the statement's formula, so the copies cannot drift apart for any "
